@@ -108,7 +108,7 @@ theorem drop_prefix (P l : List Run) (i : Nat) : (P ++ l).drop (P.length + i) = 
 
 /-! ### `skipSame` -/
 
-theorem skipSame_spec (c : Colour) (l : List Run) (i : Nat) (hs : Sorted l) :
+theorem loss_skipSame_spec (c : Colour) (l : List Run) (i : Nat) (hs : Sorted l) :
     ∃ k, skipSame c l i = i + k ∧ k ≤ l.length ∧ (∀ r ∈ l.take k, r.2 = c) := by
   induction l generalizing i with
   | nil => exact ⟨0, by simp [skipSame]⟩
@@ -209,14 +209,14 @@ theorem mayLostFrom_succ (fuel : Nat) (runs : List Run) (size j e : Nat) :
         | none => pure runs1
       mlfPost runs2 j idx e pre nie) := rfl
 
-theorem setAt_ok (l : List Run) (i : Nat) (r : Run) (h : i < l.length) : setAt l i r = .ok (l.set i r) := by
+theorem loss_setAt_ok (l : List Run) (i : Nat) (r : Run) (h : i < l.length) : setAt l i r = .ok (l.set i r) := by
   simp [setAt, h]; rfl
 
-theorem insertAt_ok (l : List Run) (i : Nat) (r : Run) (h : i ≤ l.length) :
+theorem loss_insertAt_ok (l : List Run) (i : Nat) (r : Run) (h : i ≤ l.length) :
     insertAt l i r = .ok (l.take i ++ r :: l.drop i) := by
   simp [insertAt, h]; rfl
 
-theorem drain_ok (l : List Run) (a b : Nat) (h1 : a ≤ b) (h2 : b ≤ l.length) :
+theorem loss_drain_ok (l : List Run) (a b : Nat) (h1 : a ≤ b) (h2 : b ≤ l.length) :
     drain l a b = .ok (l.take a ++ l.drop b) := by
   simp [drain, h1, h2]; rfl
 
@@ -239,7 +239,7 @@ theorem mlfPost_spec (P M S : List Run) (e : Nat) (pre : Colour) (nie : Bool) (h
         simpa using this
       have h2 : (P ++ [m] ++ S).drop (P.length + 1) = S := by
         simp
-      have hi := insertAt_ok (P ++ [m] ++ S) (P.length + 1) (e, pre) (by simp)
+      have hi := loss_insertAt_ok (P ++ [m] ++ S) (P.length + 1) (e, pre) (by simp)
       rw [h1, h2] at hi
       simp only [mlfPost, List.length_cons, List.length_nil, if_true, hn1, if_false, hi, Nat.zero_add]
       simp [bind, Except.bind, pure, Except.pure, hn2]
@@ -258,7 +258,7 @@ theorem mlfPost_spec (P M S : List Run) (e : Nat) (pre : Colour) (nie : Bool) (h
     · have ht : (P ++ (m :: m' :: (M'' ++ S))).take (P.length + 1) = P ++ [m] := by
         have := take_prefix P (m :: m' :: (M'' ++ S)) 1
         rw [this]; simp
-      have hdr := drain_ok (P ++ (m :: m' :: (M'' ++ S))) (P.length + 1) (P.length + (M''.length + 2))
+      have hdr := loss_drain_ok (P ++ (m :: m' :: (M'' ++ S))) (P.length + 1) (P.length + (M''.length + 2))
         (by omega) (by rw [hlen]; omega)
       rw [ht, hd] at hdr
       simp only [mlfPost, Bool.false_eq_true, if_false, bind, Except.bind, pure, Except.pure, hML, hdr]
@@ -266,7 +266,7 @@ theorem mlfPost_spec (P M S : List Run) (e : Nat) (pre : Colour) (nie : Bool) (h
     · have hs : (P ++ (m :: m' :: (M'' ++ S))).set (P.length + 1) (e, pre) = P ++ (m :: (e, pre) :: (M'' ++ S)) := by
         have := set_prefix P (m :: m' :: (M'' ++ S)) 1 (e, pre)
         rw [this]; simp
-      have hset := setAt_ok (P ++ (m :: m' :: (M'' ++ S))) (P.length + 1) (e, pre) (by rw [hlen]; omega)
+      have hset := loss_setAt_ok (P ++ (m :: m' :: (M'' ++ S))) (P.length + 1) (e, pre) (by rw [hlen]; omega)
       rw [hs] at hset
       simp only [mlfPost, if_true, hset, bind, Except.bind, pure, Except.pure, hML]
       by_cases hM : M'' = []
@@ -277,7 +277,7 @@ theorem mlfPost_spec (P M S : List Run) (e : Nat) (pre : Colour) (nie : Bool) (h
         have ht : (P ++ (m :: (e, pre) :: (M'' ++ S))).take (P.length + 1 + 1) = P ++ [m, (e, pre)] := by
           have := take_prefix P (m :: (e, pre) :: (M'' ++ S)) 2
           rw [show P.length + 1 + 1 = P.length + 2 by omega, this]; simp
-        have hdr := drain_ok (P ++ (m :: (e, pre) :: (M'' ++ S))) (P.length + 1 + 1) (P.length + (M''.length + 2))
+        have hdr := loss_drain_ok (P ++ (m :: (e, pre) :: (M'' ++ S))) (P.length + 1 + 1) (P.length + (M''.length + 2))
           (by omega) (by rw [hlen]; omega)
         rw [ht, hd] at hdr
         simp only [h2, if_true, hdr]
@@ -285,11 +285,11 @@ theorem mlfPost_spec (P M S : List Run) (e : Nat) (pre : Colour) (nie : Bool) (h
 
 /-! ### `may_lost_from` -/
 
-theorem sorted_append {l1 l2 : List Run} :
+theorem loss_sorted_append {l1 l2 : List Run} :
     Sorted (l1 ++ l2) ↔ Sorted l1 ∧ Sorted l2 ∧ ∀ a ∈ l1, ∀ b ∈ l2, a.1 < b.1 := by
   unfold Sorted; exact List.pairwise_append
 
-theorem sorted_cons {r : Run} {l : List Run} : Sorted (r :: l) ↔ (∀ b ∈ l, r.1 < b.1) ∧ Sorted l := by
+theorem loss_sorted_cons {r : Run} {l : List Run} : Sorted (r :: l) ↔ (∀ b ∈ l, r.1 < b.1) ∧ Sorted l := by
   unfold Sorted; exact List.pairwise_cons
 
 theorem sorted_map_toLost {l : List Run} (h : Sorted l) : Sorted (l.map toLost) := by
@@ -312,13 +312,13 @@ theorem take1_spec (M S : List Run) (hM : ∀ r ∈ M, r.2 = Colour.lost) (hs : 
     obtain ⟨o, c⟩ := m
     have hc : c = Colour.lost := hM (o, c) (by simp)
     subst hc
-    rw [List.cons_append, sorted_cons] at hs
+    rw [List.cons_append, loss_sorted_cons] at hs
     obtain ⟨h1, h2⟩ := hs
-    rw [sorted_append] at h2
+    rw [loss_sorted_append] at h2
     obtain ⟨h2, h3, h4⟩ := h2
     refine ⟨?_, ?_, ?_⟩
     · simp only [List.take_succ_cons, List.take_zero, List.cons_append, List.nil_append]
-      rw [sorted_cons]
+      rw [loss_sorted_cons]
       exact ⟨fun b hb => h1 b (by simp [hb]), h3⟩
     · intro r hr
       simp at hr ⊢
@@ -397,7 +397,7 @@ theorem mayLostFrom_spec (size e : Nat) (he : e ≤ size) (fuel : Nat) :
       simp
     obtain ⟨L, R, hLR, hL, hscan⟩ := mlfScan_spec e size he rest P.reverse P.length Colour.recved (by simp) hnp
     subst hLR
-    rw [sorted_append] at hsorted
+    rw [loss_sorted_append] at hsorted
     obtain ⟨hsL, hsR, hLltR⟩ := hsorted
     have hLleR : ∀ r ∈ L, ∀ s ∈ R, r.1 ≤ s.1 := fun r hr s hs => Nat.le_of_lt (hLltR r hr s hs)
     have hLm : ∀ r ∈ L.map toLost, r.2 = Colour.lost := by
@@ -448,7 +448,7 @@ theorem mayLostFrom_spec (size e : Nat) (he : e ≤ size) (fuel : Nat) :
     have sortedFull : ∀ S' : List Run, Sorted S' → (∀ r ∈ L, ∀ s ∈ S', r.1 < s.1) →
         Sorted (L.map toLost ++ S') := by
       intro S' h1 h2
-      rw [sorted_append]
+      rw [loss_sorted_append]
       refine ⟨sorted_map_toLost hsL, h1, ?_⟩
       intro a ha b hb
       obtain ⟨r0, h0, h0'⟩ := mem_map_toLost ha
@@ -530,8 +530,8 @@ theorem mayLostFrom_spec (size e : Nat) (he : e ≤ size) (fuel : Nat) :
     · -- a `Recved` run inside the range: recursive call
       subst hR
       rw [hscan]
-      have hsR' := (sorted_cons.mp hsR).2
-      have hoR' := (sorted_cons.mp hsR).1
+      have hsR' := (loss_sorted_cons.mp hsR).2
+      have hoR' := (loss_sorted_cons.mp hsR).1
       have e1 : P ++ L.map toLost ++ (o, Colour.recved) :: R'
           = (P ++ L.map toLost ++ [(o, Colour.recved)]) ++ R' := by simp
       have e2 : (P ++ L.map toLost ++ [(o, Colour.recved)]).length = P.length + L.length + 1 := by simp; omega
@@ -549,7 +549,7 @@ theorem mayLostFrom_spec (size e : Nat) (he : e ≤ size) (fuel : Nat) :
         rw [hrec]; exact hpost), ?_⟩
       apply finish1
       · simp only [Bool.false_eq_true, if_false, List.nil_append]
-        rw [sorted_cons]
+        rw [loss_sorted_cons]
         exact ⟨hlb'' o hoR', hsR''⟩
       · intro r hr s hs
         simp only [Bool.false_eq_true, if_false, List.nil_append, List.mem_cons] at hs
@@ -574,7 +574,7 @@ theorem mayLostFrom_spec (size e : Nat) (he : e ≤ size) (fuel : Nat) :
     · -- a run starts exactly at the end of the range: merge with the `Lost` runs that follow
       subst hR
       rw [hscan]
-      obtain ⟨k, hk1, hk2, hk3⟩ := skipSame_spec Colour.lost ((e, c) :: R') (P.length + L.length) hsR
+      obtain ⟨k, hk1, hk2, hk3⟩ := loss_skipSame_spec Colour.lost ((e, c) :: R') (P.length + L.length) hsR
       have hM : ∀ r ∈ L.map toLost ++ ((e, c) :: R').take k, r.2 = Colour.lost := by
         intro r hr
         rw [List.mem_append] at hr
@@ -595,7 +595,7 @@ theorem mayLostFrom_spec (size e : Nat) (he : e ≤ size) (fuel : Nat) :
         simp only [List.mem_cons] at hs
         rcases hs with rfl | hs
         · exact Nat.le_refl _
-        · exact Nat.le_of_lt ((sorted_cons.mp hsR).1 s hs)
+        · exact Nat.le_of_lt ((loss_sorted_cons.mp hsR).1 s hs)
       have hLS : ∀ r ∈ L, ∀ s ∈ (e, c) :: R', r.1 < s.1 := hLltR
       have hfull : L.map toLost ++ ((e, c) :: R').take k ++ ((e, c) :: R').drop k
           = L.map toLost ++ (e, c) :: R' := by
@@ -625,7 +625,7 @@ theorem mayLostFrom_spec (size e : Nat) (he : e ≤ size) (fuel : Nat) :
         simp only [List.mem_cons] at hs
         rcases hs with rfl | hs
         · exact hoe
-        · exact Nat.lt_trans hoe ((sorted_cons.mp hsR).1 s hs)
+        · exact Nat.lt_trans hoe ((loss_sorted_cons.mp hsR).1 s hs)
       have hn : (lastCol L Colour.recved == Colour.flighting) = true → L.map toLost ≠ [] := by
         intro h
         rcases hpreQ with ⟨h1, h2⟩ | ⟨h1, _⟩
@@ -637,7 +637,7 @@ theorem mayLostFrom_spec (size e : Nat) (he : e ≤ size) (fuel : Nat) :
       generalize hRdef : (o, c) :: R' = R at *
       apply finish1
       · split
-        · rw [List.singleton_append, sorted_cons]
+        · rw [List.singleton_append, loss_sorted_cons]
           exact ⟨hRe, hsR⟩
         · exact hsR
       · intro r hr s hs
@@ -715,7 +715,7 @@ theorem mayLostFrom_abs (m : BufMap) (hwf : WF m) (j a b : Nat) (hb : b ≤ m.si
   have hsplit : m.runs.take j ++ m.runs.drop j = m.runs := List.take_append_drop j m.runs
   have hlenP : (m.runs.take j).length = j := by rw [List.length_take]; omega
   have hs := hwf.sorted
-  rw [← hsplit, sorted_append] at hs
+  rw [← hsplit, loss_sorted_append] at hs
   obtain ⟨hsP, hsR, hPR⟩ := hs
   obtain ⟨rest', hrun, hs', hsz', hlb', hcol'⟩ := mayLostFrom_spec m.size b hb (m.runs.length + 2)
     (m.runs.take j) (m.runs.drop j) (by rw [List.length_drop]; omega) hsR
@@ -725,7 +725,7 @@ theorem mayLostFrom_abs (m : BufMap) (hwf : WF m) (j a b : Nat) (hb : b ≤ m.si
     fun r1 h1 r2 h2 => hlb' r1.1 (fun r hr => hPR r1 h1 r hr) r2 h2
   refine ⟨_, hrun, ⟨?_, ?_⟩, ?_⟩
   · show Sorted (m.runs.take j ++ rest')
-    rw [sorted_append]
+    rw [loss_sorted_append]
     exact ⟨hsP, hs', hPR'⟩
   · intro r hr
     have hr' : r ∈ m.runs.take j ++ rest' := hr
@@ -779,7 +779,7 @@ theorem lowerBound_spec (a : Nat) (l : List Run) (hs : Sorted l) :
   | nil => simp [lowerBound]
   | cons r l ih =>
     obtain ⟨o, c⟩ := r
-    obtain ⟨h1, h2⟩ := sorted_cons.mp hs
+    obtain ⟨h1, h2⟩ := loss_sorted_cons.mp hs
     obtain ⟨i1, i2, i3⟩ := ih h2
     simp only [lowerBound]
     split
@@ -801,6 +801,230 @@ theorem lowerBound_spec (a : Nat) (l : List Run) (hs : Sorted l) :
       · show a ≤ o; omega
       · have := h1 r hr
         simp at this; omega
+
+/-! ### glue: position of `a` in the run list, unfolding of `mayLoss` -/
+
+theorem lowerBound_append (a : Nat) (P S : List Run) (hP : ∀ r ∈ P, r.1 < a) (hS : ∀ r ∈ S, a ≤ r.1) :
+    lowerBound a (P ++ S) = P.length := by
+  induction P with
+  | nil =>
+    cases S with
+    | nil => rfl
+    | cons r S =>
+      have := hS r (by simp)
+      have h : ¬ r.1 < a := by omega
+      simp [lowerBound, h]
+  | cons r P ih =>
+    have := hP r (by simp)
+    simp [lowerBound, this, ih (fun r hr => hP r (by simp [hr]))]
+
+theorem bsearch_append (a : Nat) (P S : List Run) (hP : ∀ r ∈ P, r.1 < a) (hS : ∀ r ∈ S, a ≤ r.1) :
+    bsearch (P ++ S) a = match S with
+      | [] => (false, P.length)
+      | (o, _) :: _ => (o == a, P.length) := by
+  simp only [bsearch, lowerBound_append a P S hP hS]
+  cases S with
+  | nil => simp
+  | cons r S => obtain ⟨o, c⟩ := r; simp
+
+/-- colour of a byte inside a run -/
+theorem abs_in_run (m : BufMap) (hwf : WF m) (X Y : List Run) (o : Nat) (c : Colour) (x : Nat)
+    (hr : m.runs = X ++ (o, c) :: Y) (hox : o ≤ x) (hY : ∀ r ∈ Y, x < r.1) (hx : x < m.size) : m.abs x = c := by
+  rw [abs_of_lt m x hx, hr]
+  have hs := hwf.sorted
+  rw [hr, loss_sorted_append] at hs
+  rw [colourAt_append_le X _ _ x (fun r h => by
+    have := hs.2.2 r h (o, c) (by simp)
+    simp at this; omega)]
+  have h1 : ¬ x < o := by omega
+  simp only [colourAt, h1, if_false]
+  exact colourAt_lt_all Y c x hY
+
+/-- a run starting inside the reported range is not `Pending` -/
+theorem run_not_pending (m : BufMap) (hwf : WF m) (a b : Nat)
+    (hnp : ∀ x, a ≤ x → x < b → m.abs x ≠ Colour.pending) :
+    ∀ r ∈ m.runs, a ≤ r.1 → r.1 < b → r.2 ≠ Colour.pending := by
+  intro r hr h1 h2
+  obtain ⟨o, c⟩ := r
+  obtain ⟨X, Y, hXY⟩ := List.append_of_mem hr
+  have hs := hwf.sorted
+  rw [hXY, loss_sorted_append] at hs
+  have := abs_in_run m hwf X Y o c o hXY (Nat.le_refl _) (fun r h => (loss_sorted_cons.mp hs.2.1).1 r h)
+    (hwf.lt_size _ hr)
+  have h3 := hnp o h1 h2
+  rw [this] at h3
+  exact h3
+
+/-- the branches of `may_loss` that only call `may_lost_from` -/
+theorem mayLoss_via_mlf (m : BufMap) (a b j : Nat) (hwf : WF m) (hb : b ≤ m.size)
+    (hnp : ∀ x, a ≤ x → x < b → m.abs x ≠ Colour.pending)
+    (hj : j ≤ m.runs.length)
+    (hP1 : ∀ r ∈ m.runs.take j, r.1 ≤ a) (hP2 : lastCol (m.runs.take j) Colour.recved = Colour.recved)
+    (hR : ∀ r ∈ m.runs.drop j, a ≤ r.1)
+    (hunf : mayLoss m a b = (mayLostFrom (m.runs.length + 2) m.runs m.size j b >>= fun r =>
+      pure { m with runs := r })) :
+    ∃ m', mayLoss m a b = .ok m' ∧ WF m' ∧ m'.size = m.size ∧
+      ∀ x, m'.abs x = setRange m.abs a b lostOf x := by
+  obtain ⟨r', h1, h2, h3⟩ := mayLostFrom_abs m hwf j a b hb hj
+    (fun r hr hrb => run_not_pending m hwf a b hnp r (List.mem_of_mem_drop hr) (hR r hr) hrb) hP1 hP2 hR
+  refine ⟨{ m with runs := r' }, ?_, h2, rfl, h3⟩
+  rw [hunf, h1]
+  rfl
+
+theorem lastCol_concat (P : List Run) (r : Run) (p : Colour) : lastCol (P ++ [r]) p = r.2 := by
+  induction P generalizing p with
+  | nil => simp [lastCol_cons, lastCol_nil]
+  | cons q P ih => rw [List.cons_append, lastCol_cons]; exact ih _
+
+theorem bsearch_hit (a : Nat) (P S' : List Run) (c : Colour) (hP : ∀ r ∈ P, r.1 < a) (hS : ∀ r ∈ S', a < r.1) :
+    bsearch (P ++ (a, c) :: S') a = (true, P.length) := by
+  rw [bsearch_append a P _ hP (by
+    intro r hr
+    simp only [List.mem_cons] at hr
+    rcases hr with rfl | hr
+    · exact Nat.le_refl _
+    · exact Nat.le_of_lt (hS r hr))]
+  simp
+
+theorem bsearch_miss (a : Nat) (P S : List Run) (hP : ∀ r ∈ P, r.1 < a) (hS : ∀ r ∈ S, a < r.1) :
+    bsearch (P ++ S) a = (false, P.length) := by
+  rw [bsearch_append a P _ hP (fun r hr => Nat.le_of_lt (hS r hr))]
+  cases S with
+  | nil => rfl
+  | cons r S =>
+    obtain ⟨o, c⟩ := r
+    have := hS (o, c) (by simp)
+    have h : o ≠ a := by simp at this; omega
+    simp [h]
+
+/-- where the start `a` of the range lies in the run list -/
+theorem loss_shape (m : BufMap) (a : Nat) (hwf : WF m) (ha : a < m.size) :
+    (∃ P c S', m.runs = P ++ (a, c) :: S' ∧ (∀ r ∈ P, r.1 < a) ∧ (∀ r ∈ S', a < r.1) ∧ m.abs a = c) ∨
+    ((∀ r ∈ m.runs, a < r.1) ∧ m.abs a = Colour.recved) ∨
+    (∃ P' o' c S, m.runs = P' ++ (o', c) :: S ∧ (∀ r ∈ P', r.1 < a) ∧ o' < a ∧ (∀ r ∈ S, a < r.1) ∧
+      m.abs a = c) := by
+  obtain ⟨hk, hPlt, hSge⟩ := lowerBound_spec a m.runs hwf.sorted
+  have hsplit : m.runs.take (lowerBound a m.runs) ++ m.runs.drop (lowerBound a m.runs) = m.runs :=
+    List.take_append_drop _ _
+  generalize m.runs.take (lowerBound a m.runs) = P at *
+  generalize m.runs.drop (lowerBound a m.runs) = S at *
+  have hs := hwf.sorted
+  rw [← hsplit, loss_sorted_append] at hs
+  obtain ⟨hsP, hsS, hPS⟩ := hs
+  -- hit or miss
+  have hcase : (∃ c S', S = (a, c) :: S' ∧ ∀ r ∈ S', a < r.1) ∨ (∀ r ∈ S, a < r.1) := by
+    cases S with
+    | nil => right; simp
+    | cons r S' =>
+      obtain ⟨o, c⟩ := r
+      have h1 := hSge (o, c) (by simp)
+      have h2 := (loss_sorted_cons.mp hsS).1
+      by_cases h : o = a
+      · subst h; exact Or.inl ⟨c, S', rfl, h2⟩
+      · right
+        intro r hr
+        simp only [List.mem_cons] at hr
+        rcases hr with rfl | hr
+        · show a < o; simp at h1; omega
+        · have := h2 r hr; simp at h1 this; omega
+  rcases hcase with ⟨c, S', rfl, hS'⟩ | hS
+  · left
+    exact ⟨P, c, S', hsplit.symm, hPlt, hS', abs_in_run m hwf P S' a c a hsplit.symm (Nat.le_refl _) hS' ha⟩
+  · right
+    rcases List.eq_nil_or_concat P with rfl | ⟨P', r, rfl⟩
+    · left
+      simp only [List.nil_append] at hsplit
+      subst hsplit
+      exact ⟨hS, by rw [abs_of_lt m a ha]; exact colourAt_lt_all _ _ a hS⟩
+    · right
+      obtain ⟨o', c⟩ := r
+      have ho' : o' < a := hPlt (o', c) (by simp)
+      have hr : m.runs = P' ++ (o', c) :: S := by rw [← hsplit]; simp
+      exact ⟨P', o', c, S, hr, fun r hr => hPlt r (by simp [hr]), ho', hS,
+        abs_in_run m hwf P' S o' c a hr (Nat.le_of_lt ho') hS ha⟩
+
+theorem mayLoss_hit_recved (m : BufMap) (a b : Nat) (hwf : WF m) (hb : b ≤ m.size)
+    (hnp : ∀ x, a ≤ x → x < b → m.abs x ≠ Colour.pending) (P S' : List Run)
+    (hr : m.runs = P ++ (a, Colour.recved) :: S') (hP : ∀ r ∈ P, r.1 < a) (hS : ∀ r ∈ S', a < r.1) :
+    ∃ m', mayLoss m a b = .ok m' ∧ WF m' ∧ m'.size = m.size ∧
+      ∀ x, m'.abs x = setRange m.abs a b lostOf x := by
+  have hbs : bsearch m.runs a = (true, P.length) := by rw [hr]; exact bsearch_hit a P S' _ hP hS
+  have hget : m.runs[P.length]? = some (a, Colour.recved) := by rw [hr]; simp
+  have htake : m.runs.take (P.length + 1) = P ++ [(a, Colour.recved)] := by
+    rw [hr, take_prefix]; simp
+  have hdrop : m.runs.drop (P.length + 1) = S' := by
+    rw [hr, drop_prefix]; simp
+  apply mayLoss_via_mlf m a b (P.length + 1) hwf hb hnp
+  · rw [hr]; simp
+  · rw [htake]
+    intro r h
+    simp only [List.mem_append, List.mem_singleton] at h
+    rcases h with h | rfl
+    · exact Nat.le_of_lt (hP r h)
+    · exact Nat.le_refl _
+  · rw [htake]; exact lastCol_concat _ _ _
+  · rw [hdrop]; exact fun r h => Nat.le_of_lt (hS r h)
+  · unfold mayLoss
+    simp only [hbs, hget]
+    rfl
+
+theorem mayLoss_miss_zero (m : BufMap) (a b : Nat) (hwf : WF m) (hb : b ≤ m.size)
+    (hnp : ∀ x, a ≤ x → x < b → m.abs x ≠ Colour.pending) (hS : ∀ r ∈ m.runs, a < r.1) :
+    ∃ m', mayLoss m a b = .ok m' ∧ WF m' ∧ m'.size = m.size ∧
+      ∀ x, m'.abs x = setRange m.abs a b lostOf x := by
+  have hbs : bsearch m.runs a = (false, 0) := by
+    have := bsearch_miss a [] m.runs (by simp) hS
+    simpa using this
+  apply mayLoss_via_mlf m a b 0 hwf hb hnp
+  · omega
+  · simp
+  · simp [lastCol_nil]
+  · simp only [List.drop_zero]; exact fun r h => Nat.le_of_lt (hS r h)
+  · unfold mayLoss
+    simp only [hbs]
+    rfl
+
+theorem mayLoss_miss_recved (m : BufMap) (a b : Nat) (hwf : WF m) (hb : b ≤ m.size)
+    (hnp : ∀ x, a ≤ x → x < b → m.abs x ≠ Colour.pending) (P' S : List Run) (o' : Nat)
+    (hr : m.runs = P' ++ (o', Colour.recved) :: S) (hP : ∀ r ∈ P', r.1 < a) (ho' : o' < a)
+    (hS : ∀ r ∈ S, a < r.1) :
+    ∃ m', mayLoss m a b = .ok m' ∧ WF m' ∧ m'.size = m.size ∧
+      ∀ x, m'.abs x = setRange m.abs a b lostOf x := by
+  have hr' : m.runs = (P' ++ [(o', Colour.recved)]) ++ S := by rw [hr]; simp
+  have hPP : ∀ r ∈ P' ++ [(o', Colour.recved)], r.1 < a := by
+    intro r h
+    simp only [List.mem_append, List.mem_singleton] at h
+    rcases h with h | rfl
+    · exact hP r h
+    · exact ho'
+  have hlen : (P' ++ [(o', Colour.recved)]).length = P'.length + 1 := by simp
+  have hbs : bsearch m.runs a = (false, P'.length + 1) := by
+    rw [hr', ← hlen]; exact bsearch_miss a _ S hPP hS
+  have hget : m.runs[P'.length + 1 - 1]? = some (o', Colour.recved) := by rw [hr]; simp
+  have htake : m.runs.take (P'.length + 1) = P' ++ [(o', Colour.recved)] := by
+    rw [hr, take_prefix]; simp
+  have hdrop : m.runs.drop (P'.length + 1) = S := by
+    rw [hr, drop_prefix]; simp
+  apply mayLoss_via_mlf m a b (P'.length + 1) hwf hb hnp
+  · rw [hr]; simp
+  · rw [htake]; exact fun r h => Nat.le_of_lt (hPP r h)
+  · rw [htake]; exact lastCol_concat _ _ _
+  · rw [hdrop]; exact fun r h => Nat.le_of_lt (hS r h)
+  · unfold mayLoss
+    simp only [hbs, hget]
+    rfl
+
+/-- `may_loss` when the start of the range is a `Recved` byte (all the branches that only call `may_lost_from`) -/
+theorem mayLoss_refines_recved_start (m : BufMap) (a b : Nat) (hwf : WF m) (hab : a < b) (hb : b ≤ m.size)
+    (hnp : ∀ x, a ≤ x → x < b → m.abs x ≠ Colour.pending) (hra : m.abs a = Colour.recved) :
+    ∃ m', mayLoss m a b = .ok m' ∧ WF m' ∧ m'.size = m.size ∧
+      ∀ x, m'.abs x = setRange m.abs a b lostOf x := by
+  rcases loss_shape m a hwf (by omega) with ⟨P, c, S', hr, hP, hS, hc⟩ | ⟨hS, _⟩ | ⟨P', o', c, S, hr, hP, ho', hS, hc⟩
+  · rw [hra] at hc; subst hc
+    exact mayLoss_hit_recved m a b hwf hb hnp P S' hr hP hS
+  · exact mayLoss_miss_zero m a b hwf hb hnp hS
+  · rw [hra] at hc; subst hc
+    exact mayLoss_miss_recved m a b hwf hb hnp P' S o' hr hP ho' hS
 
 -- OPEN: `mayLoss_refines` (the top-level theorem) is not proved.  What is missing:
 --   (1) the three branches of `mayLoss` that only call `mayLostFrom` (`Ok(idx)` on a `Recved` run, `Err(0)`,
